@@ -75,7 +75,11 @@ GlobalLeaves == <<
   Glob("cs3", "const", <<3>>, "f", <<Z(-1), Q(1, 2), Z(2)>>),
   Glob("as3", "arg", <<3>>, "f", <<Z(0), Z(1), Z(3)>>),
   \* integer square matrix (det / inv of integers are real)
-  Glob("ci22", "const", <<2, 2>>, "i", <<Z(2), Z(1), Z(1), Z(1)>>)
+  Glob("ci22", "const", <<2, 2>>, "i", <<Z(2), Z(1), Z(1), Z(1)>>),
+  \* a sorted table that ENDS BELOW the largest coordinate of every sample (searchsorted then returns len = 3 at some points),
+  \* and its length as a raw integer (ri = 2 is len - 1)
+  Glob("rt3", "raw", <<3>>, "f", <<Z(0), Q(1, 2), Z(1)>>),
+  Glob("ri3", "raw", <<>>, "i", <<Z(3)>>)
 >>
 
 \* point-dependent leaves: pv = per-point flat values
